@@ -57,6 +57,11 @@ struct OpEnumerator
             add(base, T_FIELD, A_SIZE, field, ext, lbl + ".size", 0, cpath);
             add(base, T_FIELD, GET_BY_TAG, field, ext, lbl + ".get_by_tag", 0, cpath);
             add(base, T_FIELD, A_ITER, field, ext, lbl + ".iterate", 0, cpath);
+            add(base, T_FIELD, A_RAW_ITER, field, ext, lbl + ".raw() iterate", 0, cpath);
+            add(base, T_FIELD, A_RAW_WRITE, field, ext, lbl + ".raw() write last", 0, cpath);
+            add(base, T_FIELD, A_REVERSE, field, ext, lbl + ".rbegin..rend", 0, cpath);
+            add(base, T_FIELD, A_ASSIGN_N, field, ext, lbl + ".assign(N, v)", 0x43, cpath);
+            add(base, T_FIELD, A_ASSIGN_RANGE, field, ext, lbl + ".assign_range", 0x44, cpath);
             add(base, T_FIELD, A_STRLEN, field, ext, lbl + ".strlen", 0, cpath);
             add(base, T_FIELD, A_STRLEN_R, field, ext, lbl + ".strlen_r", 0, cpath);
             add(base, T_FIELD, A_FILL, field, ext, lbl + ".fill", 0x41, cpath);
